@@ -164,7 +164,7 @@ func runC20(c *core.Ctx) {
 		c.Check(bad == "", "C20.rejects", "type/conversion."+spec.name, fn.Pos(), "destination only touched across source.Kind() == the expected kind", bad)
 	}
 
-	c.Doc("C20.integers", "once the source integer was extracted, conversion to an integer destination cannot be refused", 1)
+	c.Doc("C20.integers", "once the source integer was extracted, conversion to an integer destination cannot be refused; the extraction refuses by kind only", 2)
 	{
 		asInt := c.Func("type/conversion", "", "AsInt64")
 		isOK := func(v ssa.Value) bool {
@@ -208,6 +208,34 @@ func runC20(c *core.Ctx) {
 			nOK++
 			if !okReturn(ret) {
 				bad = "convertFrom refuses (at " + c.Pos(ret.Pos()) + ") an integer source whose value was already extracted: some values of a compatible integer type (an unsigned value >= 2^63 travels as a negative int64) are rejected instead of preserved"
+			}
+		}
+		// … and the extraction itself refuses by kind only: once it has read the integer
+		// (Value.Int / Value.Uint) it does not answer "not an integer" for some values
+		// (the unsigned destination undoes the wrap-around of an unsigned source >= 2^63)
+		if asInt != nil {
+			badX := ""
+			nX := 0
+			for _, call := range core.Calls(asInt) {
+				f := core.StaticCallee(call)
+				if f == nil || f.Signature.Recv() == nil || !(f.Name() == "Int" || f.Name() == "Uint") || !strings.HasSuffix(f.Signature.Recv().Type().String(), "reflect.Value") {
+					continue
+				}
+				nX++
+				r := core.ReachFrom(core.After(call.(ssa.Instruction)), nil, nil)
+				for _, ret := range core.Returns(asInt) {
+					if len(ret.Results) != 2 || !r.Has(ret) {
+						continue
+					}
+					if ok, isK := core.ConstBool(core.RetVal(ret, 1)); !isK || !ok {
+						badX = "AsInt64 can answer that the source is not an integer (at " + c.Pos(ret.Pos()) + ") after having read its value: the refusal depends on the value, so some values of a compatible integer type (an unsigned value >= 2^63, which the unsigned destination restores from the wrapped int64) are rejected instead of preserved"
+					}
+				}
+			}
+			if nX == 0 {
+				c.Undecided("C20.integers", "type/conversion.AsInt64", asInt.Pos(), "no Value.Int / Value.Uint read found in the extraction helper")
+			} else {
+				c.Check(badX == "", "C20.integers", "type/conversion.AsInt64", asInt.Pos(), fmt.Sprintf("%d reads of the source integer, none followed by a refusal", nX), badX)
 			}
 		}
 		if asInt == nil || nOK == 0 {
